@@ -240,6 +240,9 @@ func checkC13(c *Ctx, p *Prog, r *Result) {
 		r.table(p, "C13.one-mac-routine", siteKey(p, call), p.instrPos(call), p.FuncName(call.Parent()) == "fdo/cose.Mac0.Digest", "caller "+p.FuncName(call.Parent()))
 	}
 
+	// (3b) block-MAC state: zero padding of the last block must not erase the chaining state
+	c13MacState(p, r)
+
 	// (4) RFC 8152 fixed-width encoding
 	if rf := get("fdo/cose.RFC8152Signer.Sign"); rf != nil {
 		r.Functions["fdo/cose.RFC8152Signer.Sign"] = true
@@ -324,4 +327,85 @@ func checkC13(c *Ctx, p *Prog, r *Result) {
 		}
 	}
 	checkRet(verify, 0)
+}
+
+// c13MacState: in every hash implementation of package cose whose Write
+// accumulates message bytes into a state field by XOR (state[i] ^= b — the CBC-MAC
+// shape, where the field also holds the previous cipher block), Sum may change
+// that field only by encrypting it in place: zero padding is the identity under
+// XOR, so any copy into / store to the state in Sum erases chaining state and
+// makes the tag independent of earlier blocks.
+func c13MacState(p *Prog, r *Result) {
+	rule := "C13.mac-state-preserved"
+	r.rule(rule, "a MAC whose Write XOR-accumulates message bytes into a state field finalises (Sum) without copying into or storing to that field: the zero padding of a partial last block leaves the chaining state untouched")
+	r.floor(rule, 1)
+	for _, wr := range p.Funcs {
+		if funcPkgPath(wr) != modulePath+"/cose" || wr.Name() != "Write" || wr.Signature.Recv() == nil {
+			continue
+		}
+		// state fields: stores of an XOR into an element of a receiver field
+		fields := map[string]bool{}
+		for _, b := range wr.Blocks {
+			for _, in := range b.Instrs {
+				st, ok := in.(*ssa.Store)
+				if !ok {
+					continue
+				}
+				bo, ok := st.Val.(*ssa.BinOp)
+				if !ok || bo.Op != token.XOR {
+					continue
+				}
+				ia, ok := st.Addr.(*ssa.IndexAddr)
+				if !ok {
+					continue
+				}
+				if fa, ok := loadOf(ia.X).(*ssa.FieldAddr); ok {
+					fields[fieldName(fa.X.Type(), fa.Field)] = true
+				}
+			}
+		}
+		if len(fields) == 0 {
+			continue
+		}
+		recv := typeShort(wr.Signature.Recv().Type())
+		sum := p.ByName[recv+".Sum"]
+		if sum == nil {
+			r.table(p, rule, "Sum of "+recv, p.Pos(wr.Pos()), false, "type XOR-accumulates in Write but has no Sum method: undecided")
+			continue
+		}
+		var bad []string
+		baseField := func(v ssa.Value) string {
+			for {
+				switch x := v.(type) {
+				case *ssa.Slice:
+					v = x.X
+					continue
+				case *ssa.IndexAddr:
+					v = x.X
+					continue
+				}
+				break
+			}
+			if fa, ok := loadOf(v).(*ssa.FieldAddr); ok {
+				return fieldName(fa.X.Type(), fa.Field)
+			}
+			return ""
+		}
+		for _, b := range sum.Blocks {
+			for _, in := range b.Instrs {
+				switch x := in.(type) {
+				case *ssa.Store:
+					if fields[baseField(x.Addr)] {
+						bad = append(bad, "store into the state at "+p.instrPos(in))
+					}
+				case *ssa.Call:
+					if bi, ok := x.Call.Value.(*ssa.Builtin); ok && (bi.Name() == "copy" || bi.Name() == "clear") && fields[baseField(x.Call.Args[0])] {
+						bad = append(bad, bi.Name()+" into the state at "+p.instrPos(in))
+					}
+				}
+			}
+		}
+		r.Functions[p.FuncName(sum)] = true
+		r.table(p, rule, "Sum of "+recv, p.Pos(sum.Pos()), len(bad) == 0, strings.Join(bad, "; "))
+	}
 }
